@@ -9,10 +9,15 @@ verus! {
 pub struct NonZeroUsize { pub v: usize }
 pub struct QueryBuilder<'a> { pub reader: &'a Reader, pub count: usize, pub search_k: Option<NonZeroUsize>, pub oversampling: Option<NonZeroUsize>, pub candidates: Option<&'a RoaringBitmap> }
 
+pub uninterp spec fn nns_rel(reader: Reader, v: DbView, q: LeafV, opt: QueryBuilder, r: Result<Vec<(ItemId, f32)>>) -> bool;
 impl Reader {
-    /// stand-in for the search itself: decided by unit `reader_search`; here only the entry checks matter
+    /// stand-in for the search itself: its contract is proved in unit `reader_search`; here it is the abstract relation `nns_rel`
+    /// ("r is an answer of nns_by_leaf for this reader, snapshot, query leaf and these options"), so that by_vector / by_item are
+    /// proved to return exactly such an answer for the options they were given
     #[verifier::external_body]
-    fn nns_by_leaf(&self, rtxn: &RoTxn, query_leaf: &Leaf, opt: &QueryBuilder) -> (r: Result<Vec<(ItemId, f32)>>) { unimplemented!() }
+    fn nns_by_leaf(&self, rtxn: &RoTxn, query_leaf: &Leaf, opt: &QueryBuilder) -> (r: Result<Vec<(ItemId, f32)>>)
+        ensures nns_rel(*self, rtxn.view(), LeafV { header: query_leaf.header.hv(), vector: query_leaf.vector.vv() }, *opt, r)
+    { unimplemented!() }
 
 //@extract src/reader.rs | impl<'t, D: Distance> Reader<'t, D> | open
 //@spec
@@ -111,6 +116,9 @@ impl<'a> QueryBuilder<'a> {
         // C19: a query vector of the wrong length is rejected with both lengths
         vector@.len() != self.reader.dimensions ==>
             r == Err::<Vec<(ItemId, f32)>, Error>(Error::InvalidVecDimension { expected: self.reader.dimensions, received: vector@.len() as usize }),
+        // C03: otherwise the answer is the one of the search for the leaf made of this vector, under exactly the options given
+        vector@.len() == self.reader.dimensions ==>
+            nns_rel(*self.reader, rtxn.view(), LeafV { header: Dist::new_header_spec(Dist::enc(vector@)), vector: Dist::enc(vector@) }, *self, r),
 //@end
 //@extract src/reader.rs | impl<'a, D: Distance> QueryBuilder<'a, D> | by_item
 //@spec
@@ -118,6 +126,9 @@ impl<'a> QueryBuilder<'a> {
         // C03: an unknown id yields no result rather than an error
         !rtxn.view().contains_key(ikey(self.reader.index, item)) ==> (r matches Ok(None) || r matches Err(Error::Heed(_))),
         r matches Ok(None) ==> !(rtxn.view().contains_key(ikey(self.reader.index, item)) && rtxn.view()[ikey(self.reader.index, item)] is Leaf),
+        // C03: a stored id is answered by the search for its stored leaf, under exactly the options given
+        r matches Ok(Some(out)) ==> rtxn.view().contains_key(ikey(self.reader.index, item)) && (rtxn.view()[ikey(self.reader.index, item)] matches AVal::Leaf(l)
+            && nns_rel(*self.reader, rtxn.view(), l, *self, Ok::<Vec<(ItemId, f32)>, Error>(out))),
 //@end
 }
 
